@@ -747,8 +747,9 @@ class Type3Tag(nfc.tag.Tag):
             if type(error) is nfc.clf.ProtocolError:  # pragma: no branch
                 raise Type3TagCommandError(nfc.tag.PROTOCOL_ERROR)
 
-        if rsp[0] != len(rsp):
-            log.debug("incorrect response length {0:02x}".format(rsp[0]))
+        if len(rsp) < 2 or rsp[0] != len(rsp):
+            log.debug("incorrect response length {0}".format(
+                hexlify(rsp[0:1]).decode()))
             raise Type3TagCommandError(RSP_LENGTH_ERROR)
         if rsp[1] != cmd_code + 1:
             log.debug("incorrect response code {0:02x}".format(rsp[1]))
